@@ -82,7 +82,8 @@ def run(ctx):
     cases = generate(ctx, ctx.quick)
     hcases = []
     for i, (fam, c) in enumerate(cases):
-        hcases.append(to_history(i, fam, c))
+        # every third model through a predictor that does NOT store candidate scores (the tags must be the same)
+        hcases.append(to_history(i, fam, c, store=(i % 3 != 2)))
         toks = [tuple(t["token"]) for t in c["model"]["tags"]]
         for r in c["runs"]:
             ctx.evaluations += 1
